@@ -1072,6 +1072,7 @@ pub fn main(args: &util::Args) {
             wildcard_arrays: false,
             nested_patterns: i % 4 == 1,
             logic_rhs_shapes: i % 5 == 2,
+            cov_shapes: i % 6 == 4,
             ..Default::default()
         };
         let (src, _) = crate::progen::gen_program(&mut rng, cfg);
